@@ -629,11 +629,11 @@ var c12Statuses = [][3]any{ // status, reason, message
 	{uint32(0), uint32(5), "ok-with-reason"},
 	{uint32(1), uint32(1), "not found"},
 	{uint32(1), uint32(5), ""},
-	{uint32(1), uint32(0x100), "general"},
+	{uint32(1), uint32(0x100), "general: storage 100% full, 5%d left"}, // the message is data, never a format
 	{uint32(2), uint32(0), "pending"},
 	{uint32(3), uint32(9), "undone"},
 	{uint32(9), uint32(0x99), "unknown enums"},
-	{uint32(1), uint32(0x7777), "unknown reason"},
+	{uint32(1), uint32(0x7777), "unknown reason 100%"},
 	{uint32(2), uint32(0), "pending [acv]"},
 	{uint32(2), uint32(5), "pending, not supported"},
 	{uint32(3), uint32(5), "undone, not supported [acv]"},
